@@ -69,6 +69,8 @@ def Rec(gname, fields):
 
 
 def gty(t):
+    if getattr(t, "g", None):
+        return t.g
     return {"int": "Z", "bool": "bool", "str": "string", "timedelta": "Z", "aware_datetime": "adt",
             "naive_datetime": "Z", "datetime": "pydt", "cron": "expr", "zone": "string"}.get(t.kind) or \
         ("option (%s)" % gty(t.arg) if t.kind == "opt" else t.gname if t.kind in ("union", "rec") else _bad("type %r" % t))
@@ -91,6 +93,20 @@ class Fn:
         self.n = 0
         self.now_used = False
         self.tz_used = False
+        self.ext = unit.ext                  # unit-specific primitives (see class Ext)
+        self.pending = []                    # partial primitive calls of the statement being translated
+        self.effects = bool(spec.get("effects"))
+
+    def partial(self, gcall, hint="v"):
+        """a primitive that may raise: bound by `match gcall with Some v => ... | None => <raise> end` around the
+        rest of the function, at the statement it occurs in"""
+        v = self.fresh(hint)
+        self.pending.append((v, gcall))
+        return v
+
+    def take_pending(self):
+        pend, self.pending = self.pending, []
+        return pend
 
     def fresh(self, hint):
         self.n += 1
@@ -116,6 +132,31 @@ def forget(env, name):
     return {p: v for p, v in env.items() if p != name and not p.startswith(name + ".")}
 
 
+class Ext:
+    """unit-specific primitives; every table is consulted before the built-in ones.
+      calls    {dotted name: f(fn, node, env) -> (g, Ty)}
+      methods  {(receiver kind, method name): f(fn, node, g, t, env) -> (g, Ty)}
+      attrs    {(kind, attribute): (template with one %s, Ty)}
+      compare  {(op, left kind, right kind): template with two %s}            (result BOOL)
+      truthy   {kind: template with one %s}
+      isinst   f(fn, path, g, t, clsname, env, kt, kf) -> text | None          (isinstance tests)
+      stmt     f(fn, stmt, env) -> (prefix text ending in "in\n" or "", new env) | None   (expression statements, awaits,
+               attribute assignments: effects and re-bindings)
+      raise_   Gallina text of "an exception left the function" for the declared return type"""
+
+    def __init__(self, **kw):
+        self.calls, self.methods, self.attrs, self.compare, self.truthy = {}, {}, {}, {}, {}
+        self.isinst = self.stmt = None
+        self.raise_ = "None"
+        self.__dict__.update(kw)
+
+
+def wrap_pending(fn, pend, text):
+    for v, g in reversed(pend):
+        text = "match %s with\n| Some %s =>\n%s\n| None =>\n%s\nend" % (g, v, text, fn.ext.raise_)
+    return text
+
+
 # ---- expressions
 def tr_expr(fn, node, env):
     p = path_of(node)
@@ -136,6 +177,9 @@ def tr_expr(fn, node, env):
         _bad("unknown name %s" % node.id, node)
     if isinstance(node, ast.Attribute):
         g, t = tr_expr(fn, node.value, env)
+        if (t.kind, node.attr) in fn.ext.attrs:
+            f, ft = fn.ext.attrs[(t.kind, node.attr)]
+            return f % g, ft
         if t.kind == "rec" and node.attr in t.fields:
             acc, ft = t.fields[node.attr]
             return "(%s %s)" % (acc, g), ft
@@ -158,6 +202,8 @@ def tr_expr(fn, node, env):
         op = type(node.ops[0]).__name__
         zops = {"LtE": "(%s <=? %s)", "Lt": "(%s <? %s)", "GtE": "(%s >=? %s)", "Gt": "(%s >? %s)", "Eq": "(%s =? %s)",
                 "NotEq": "(negb (%s =? %s))"}
+        if (op, ta.kind, tb.kind) in fn.ext.compare:
+            return fn.ext.compare[(op, ta.kind, tb.kind)] % (a, b), BOOL
         if ta.kind == tb.kind and ta.kind in ("int", "timedelta") and op in zops:
             return zops[op] % (a, b), BOOL
         if ta == ADT and tb == ADT:
@@ -201,6 +247,12 @@ def is_pytz_utc(node):
 
 def tr_call(fn, node, env):
     name = path_of(node.func)
+    if name in fn.ext.calls:
+        return fn.ext.calls[name](fn, node, env)
+    if isinstance(node.func, ast.Attribute) and name not in ("datetime.now", "pytz.timezone"):
+        g0, t0 = tr_expr(fn, node.func.value, env)
+        if (t0.kind, node.func.attr) in fn.ext.methods:
+            return fn.ext.methods[(t0.kind, node.func.attr)](fn, node, g0, t0, env)
     if name == "datetime.now":
         kw = kwargs_of(fn, node, env, ("tz",))
         if "tz" not in kw or not is_pytz_utc(kw["tz"]):
@@ -281,7 +333,12 @@ def tr_call(fn, node, env):
 
 
 # ---- tests (decision trees)
+_CUR = {"ext": Ext()}
+
+
 def truthy(g, t):
+    if t.kind in _CUR["ext"].truthy:
+        return _CUR["ext"].truthy[t.kind] % g
     if t == BOOL:
         return g
     if t in (INT, TD):
@@ -352,6 +409,11 @@ def tr_test(fn, node, env, kt, kf):
     if isinstance(node, ast.Call) and path_of(node.func) == "isinstance" and len(node.args) == 2 and not node.keywords:
         p = path_of(node.args[0])
         cls = path_of(node.args[1])
+        if fn.ext.isinst is not None and p is not None and cls is not None:
+            g, t = tr_expr(fn, node.args[0], env)
+            r = fn.ext.isinst(fn, p, g, t, cls, env, kt, kf)
+            if r is not None:
+                return r
         if p is None or cls not in PYCLASS:
             _bad("isinstance(%s, %s)" % (ast.unparse(node.args[0]), ast.unparse(node.args[1])), node)
         want = PYCLASS[cls]
@@ -405,7 +467,12 @@ def tr_test(fn, node, env, kt, kf):
 
 
 # ---- statements
-def coerce_ret(fn, g, t, node=None):
+def coerce_ret(fn, g, t, node=None, env=None):
+    if fn.effects:
+        # a function translated for its effects: it must return None; its value is the list of effects so far
+        if t != NONE:
+            _bad("a value is returned by a function that is translated for its effects", node)
+        return "(Some %s)" % env["__eff"][0]
     r = fn.spec["ret"]
     if t == r:
         return g
@@ -435,13 +502,24 @@ def tr_block(fn, stmts, env, k):
         if rest:
             _bad("statements after return", rest[0])
         if s.value is None:
-            return coerce_ret(fn, "None", NONE, s)
+            return coerce_ret(fn, "None", NONE, s, env)
         g, t = tr_expr(fn, s.value, env)
-        return coerce_ret(fn, g, t, s)
+        return wrap_pending(fn, fn.take_pending(), coerce_ret(fn, g, t, s, env))
     if isinstance(s, ast.If):
         cont = lambda e: tr_block(fn, rest, e, k)     # noqa: E731
-        return tr_test(fn, s.test, env, lambda e: tr_block(fn, s.body, e, cont),
+        if fn.pending:
+            _bad("internal: pending partial calls before a test", s)
+        text = tr_test(fn, s.test, env, lambda e: tr_block(fn, s.body, e, cont),
                        lambda e: tr_block(fn, s.orelse, e, cont))
+        if fn.pending:
+            _bad("a primitive that may raise inside a test (bind it to a variable first)", s)
+        return text
+    if fn.ext.stmt is not None:
+        r = fn.ext.stmt(fn, s, env)
+        if r is not None:
+            prefix, e2 = r
+            pend = fn.take_pending()
+            return wrap_pending(fn, pend, prefix + tr_block(fn, rest, e2, k))
     if isinstance(s, (ast.Assign, ast.AugAssign, ast.AnnAssign)):
         if isinstance(s, ast.Assign):
             if len(s.targets) != 1:
@@ -458,12 +536,11 @@ def tr_block(fn, stmts, env, k):
         if not isinstance(tgt, ast.Name):
             _bad("assignment to something that is not a local variable", s)
         g, t = tr_expr(fn, val, env)
-        if t == NONE or t.kind in ("opt", "union") and path_of(val) is None:
-            pass
+        pend = fn.take_pending()
         v = fn.fresh(tgt.id)
         e2 = forget(env, tgt.id)
         e2[tgt.id] = (v, t)
-        return "let %s := %s in\n%s" % (v, g, tr_block(fn, rest, e2, k))
+        return wrap_pending(fn, pend, "let %s := %s in\n%s" % (v, g, tr_block(fn, rest, e2, k)))
     if isinstance(s, ast.Pass):
         return tr_block(fn, rest, env, k)
     _bad("statement %s" % type(s).__name__, s)
@@ -472,6 +549,7 @@ def tr_block(fn, stmts, env, k):
 class Unit:
     def __init__(self):
         self.done = {}
+        self.ext = Ext()
 
 
 def translate(repo, spec):
@@ -480,15 +558,22 @@ def translate(repo, spec):
     src = open(os.path.join(repo, spec["file"])).read()
     tree = ast.parse(src)
     defs = {n.name: n for n in tree.body if isinstance(n, (ast.FunctionDef, ast.AsyncFunctionDef))}
+    for c in tree.body:
+        if isinstance(c, ast.ClassDef):
+            for n in c.body:
+                if isinstance(n, (ast.FunctionDef, ast.AsyncFunctionDef)):
+                    defs[c.name + "." + n.name] = n
     unit = Unit()
+    unit.ext = spec.get("ext") or Ext()
+    _CUR["ext"] = unit.ext
     out, info = [], dict(file=spec["file"], sha256=hashlib.sha256(src.encode()).hexdigest(), functions={})
     uses_tz = False
     for fs in spec["functions"]:
         nd = defs.get(fs["name"])
         if nd is None:
             raise Unsupported("function %s not found in %s" % (fs["name"], spec["file"]))
-        if not isinstance(nd, ast.FunctionDef):
-            _bad("async function", nd)
+        if not isinstance(nd, ast.FunctionDef) and not fs.get("effects"):
+            _bad("async function", nd)     # awaits are translated only as effects of an effect-translated function
         if nd.decorator_list:
             _bad("decorated function", nd)
         a = nd.args
@@ -498,16 +583,19 @@ def translate(repo, spec):
             _bad("parameters of %s are %r" % (nd.name, [x.arg for x in a.args]), nd)
         fn = Fn(unit, fs)
         env = {p: (p, t) for p, t in fs["params"]}
-        body = tr_block(fn, nd.body, env, lambda e: coerce_ret(fn, "None", NONE, nd))
+        if fn.effects:
+            env["__eff"] = ("[]", NONE)
+        body = tr_block(fn, nd.body, env, lambda e: coerce_ret(fn, "None", NONE, nd, e))
         ps = ("(now0 : Z) " if fn.now_used else "") + " ".join("(%s : %s)" % (p, gty(t)) for p, t in fs["params"])
+        gname = fs.get("gname", nd.name)
         out.append("(* %s, lines %d-%d *)\nDefinition %s %s : %s :=\n%s." % (
-            spec["file"], nd.lineno, nd.end_lineno, nd.name, ps, gty(fs["ret"]), body))
+            spec["file"], nd.lineno, nd.end_lineno, gname, ps, gty(fs["ret"]), body))
         unit.done[nd.name] = dict(params=fs["params"], ret=fs["ret"], now=fn.now_used, tz=fn.tz_used)
         uses_tz = uses_tz or fn.tz_used
         info["functions"][nd.name] = dict(lines=[nd.lineno, nd.end_lineno], reads_clock=fn.now_used, uses_tzoff=fn.tz_used)
     head = "(* GENERATED on every run by harness/pygal.py from %s (sha256 %s) - do not edit *)\n" % (
         spec["file"], info["sha256"][:16])
-    head += "From Coq Require Import ZArith Bool String List.\nFrom TQ Require Import %s.\nOpen Scope Z_scope.\n" % \
-        " ".join(spec.get("imports", ["SchedDelay", "Civil", "Cron", "PyPrelude"]))
+    head += "From Coq Require Import ZArith Bool String List.\nImport ListNotations.\nFrom TQ Require Import %s.\n%s\n" % (
+        " ".join(spec.get("imports", ["SchedDelay", "Civil", "Cron", "PyPrelude"])), spec.get("scope", "Open Scope Z_scope."))
     text = head + "\nSection Gen.\nVariable tzoff : string -> Z -> Z.\n\n" + "\n\n".join(out) + "\n\nEnd Gen.\n"
     return text, info
